@@ -18,6 +18,7 @@ CONSTANTS NrC,          \* numbers of coarse radii, e.g. {3,4}
           NtC,          \* numbers of coarse angular cells, e.g. {2,4}
           Sp,           \* fine spacings allowed, e.g. {1,2}
           Midpoint,     \* TRUE: only pairs where every fine node is the midpoint of its coarse neighbours
+          HPer,         \* 0: every radial spacing pattern; n > 0: only patterns with period n (keeps the larger pairs affordable)
           EmitTables
 
 VARIABLES g       \* [nr, nt, h (fine radial spacings, Seq), k (fine angular spacings, Seq of length nt)]
@@ -89,6 +90,7 @@ Init == \E nrc \in NrC, ntc \in NtC :
              /\ (Midpoint => /\ \A i \in 1..(nrc - 1) : h[2 * i - 1] = h[2 * i]
                              /\ \A j \in 1..(ntc \div 2) : kh[2 * j - 1] = kh[2 * j])
              /\ ntc % 2 = 0
+             /\ (HPer > 0 => \A i \in (HPer + 1)..(2 * nrc - 2) : h[i] = h[i - HPer])
 Next == UNCHANGED g
 Spec == Init /\ [][Next]_vars
 
